@@ -1,4 +1,68 @@
-(* placeholder *)
-From Coq Require Import ZArith.
-Theorem C08_placeholder : True. Proof. exact I. Qed.
-Print Assumptions C08_placeholder.
+(* C08 -- label arithmetic (%offset, %position, bare labels) uses FINAL addresses.  Statements only.
+   Model: Model/Passes.v (assemble_items; relocate_hi/lo are the GENERATED functions), tied to asm.assemble by the
+   pipeline correspondence. *)
+From Coq Require Import ZArith List String.
+From BB Require Import Base.PyBase Gen.Encoders Model.Items Model.Encode Model.Passes
+  Proofs.Layout Proofs.Pipeline Proofs.Targets Proofs.Stable Proofs.Examples.
+Import ListNotations.
+Open Scope Z_scope.
+
+(* After a successful run (unique labels, align N >= 1, both modes) there are the item list [al] after alignment and
+   the final list [fin] such that: items of al and fin correspond one to one with the same sizes (so an item's offset
+   p in al is its FINAL offset), the label table is exact for fin (C03), and for every instruction of al standing at
+   final offset p (pF2 ... 0 al fin): its immediate expression is evaluated at p -- at p - 4 for the second
+   instruction of a far call / tail / two-instruction li, i.e. at the offset of the item the programmer wrote --
+   against ChainMap(constants, FINAL labels), the result is the operand the encoder receives, and the encoder's bytes
+   are the chunk.  resolve_immediates is the only place where values are baked in, and it runs after the last pass
+   that changes a size. *)
+Theorem C08_final :
+  forall its consts0 labels0 compress r,
+    assemble_items its consts0 labels0 compress = Done r -> nonneg its -> NoDup (gnames its) ->
+    exists al fin, Forall2 same1 al fin /\ blobbed fin (r_chunks r) /\ exact fin (r_labels r) /\
+                   pF2 (Rval (r_consts r) (r_labels r)) 0 al fin.
+Proof.
+  intros its c0 l0 cmp r H Hn Hd.
+  destruct (pipeline_layout its c0 l0 cmp r H Hn Hd) as (pa & al & fin & _ & _ & _ & S & B & X & _ & V).
+  exists al, fin. auto.
+Qed.
+Print Assumptions C08_final.
+
+(* the three forms, with q the (final) value of L and p the offset of the referring item *)
+Theorem C08_offset : forall l p consts labels L q z,
+  chain_get consts labels L = Some q -> imm_of l p consts labels (FExpr (EOff L)) = Done z -> z = q - p.
+Proof. exact eval_offset. Qed.
+Print Assumptions C08_offset.
+Theorem C08_position : forall l p consts labels L q b z,
+  chain_get consts labels L = Some q -> imm_of l p consts labels (FExpr (EPos L (EArith (ANum b)))) = Done z -> z = b + q.
+Proof. exact eval_position. Qed.
+Print Assumptions C08_position.
+Theorem C08_bare : forall l p consts labels L q z,
+  chain_get consts labels L = Some q -> imm_of l p consts labels (FExpr (EArith (AName L))) = Done z -> z = q.
+Proof. exact eval_bare. Qed.
+Print Assumptions C08_bare.
+
+(* the EARLY decisions (taken while labels are still pessimistic) are taken only on values that cannot change:
+   a settled immediate has the same value at every position under every label table ... *)
+Theorem C08_settled_stable : forall l pos consts e,
+  is_settled l pos consts e = Done true -> exists v, forall pos' labels, eval_here l pos' consts labels e = Done v.
+Proof. exact settled_stable. Qed.
+Print Assumptions C08_settled_stable.
+(* ... the one-instruction form of li is chosen only on such a value, inside the 12-bit range ... *)
+Theorem C08_li_near_final : forall consts l pos labels name args pimm e lo hi near f1 f2,
+  expand_pseudo l name args pimm = Done (Choice e None lo hi near f1 f2) ->
+  pseudo_rule consts l (IPseudo name args pimm) pos labels = Done [near] ->
+  exists v, lo <= c_int32 v <= hi /\ forall pos' labels', eval_here l pos' consts labels' e = Done v.
+Proof. exact li_near_final. Qed.
+Print Assumptions C08_li_near_final.
+(* ... and a compression rule is consulted only for a settled immediate or for the distance from a jump / branch to
+   a label (which later passes can only move towards zero; that monotonicity is NOT proved here -- see DESIGN.md) *)
+Theorem C08_compress_on_settled : forall l pos consts cls fs e,
+  field_get "imm" fs = Some (FExpr e) -> imm_unstable l pos consts cls fs = Done false ->
+  jump_to_label consts cls e \/ exists v, forall pos' labels, eval_here l pos' consts labels e = Done v.
+Proof. exact compress_decides_on_settled. Qed.
+Print Assumptions C08_compress_on_settled.
+
+Example C08_example :
+  nonneg ex_its /\ NoDup (gnames ex_its) /\
+  (exists r, assemble_items ex_its [] [] true = Done r /\ r_labels r = [("a", 0); ("b", 8)]%string).
+Proof. exact (conj ex_nonneg (conj ex_nodup ex_runs_c)). Qed.
